@@ -153,6 +153,9 @@ type Analysis struct {
 	Funcs []*ssa.Function
 
 	ops map[ssa.Instruction]*LockOp
+	// releases performed by calling (or deferring) a function value: `unlock := mu.Unlock`,
+	// `unlock := func() { a.Unlock(); b.Unlock() }`, ... `defer unlock()`
+	extra map[ssa.Instruction][]*LockOp
 
 	mustEntry map[*ssa.Function]LS
 	mayEntry  map[*ssa.Function]LS
@@ -190,7 +193,7 @@ var lockMethods = map[string]struct {
 
 // New runs the analysis over all repo functions.
 func New(p *core.Program) *Analysis {
-	a := &Analysis{P: p, ops: map[ssa.Instruction]*LockOp{},
+	a := &Analysis{P: p, ops: map[ssa.Instruction]*LockOp{}, extra: map[ssa.Instruction][]*LockOp{},
 		mustEntry: map[*ssa.Function]LS{}, mayEntry: map[*ssa.Function]LS{},
 		mustIn: map[*ssa.BasicBlock]LS{}, mayIn: map[*ssa.BasicBlock]LS{},
 		sites: map[*ssa.Function][]ssa.CallInstruction{}, syncClosure: map[*ssa.Function]*ssa.MakeClosure{}, syncActs: map[*ssa.Function][]ssa.Instruction{},
@@ -198,6 +201,7 @@ func New(p *core.Program) *Analysis {
 		callees: map[ssa.CallInstruction][]*ssa.Function{}, Classes: map[string]bool{}}
 	a.Funcs = p.RepoFuncs()
 	a.findOps()
+	a.findFuncValueOps()
 	a.buildCalls()
 	a.fixpoint()
 	return a
@@ -227,6 +231,122 @@ func (a *Analysis) findOps() {
 	}
 }
 
+// findFuncValueOps recognises calls of function values that are known to
+// release locks: a bound method value of a mutex's Unlock/RUnlock, or a
+// function literal whose straight-line body releases locks. The value is
+// followed through phis along feasible edges only.
+func (a *Analysis) findFuncValueOps() {
+	for _, fn := range a.Funcs {
+		core.Instrs(fn, func(in ssa.Instruction) {
+			c, ok := in.(ssa.CallInstruction)
+			if !ok || c.Common().IsInvoke() {
+				return
+			}
+			switch c.Common().Value.(type) {
+			case *ssa.Function, *ssa.Builtin:
+				return
+			}
+			if _, direct := c.Common().Value.(*ssa.MakeClosure); direct {
+				// `defer func() {...}()`: the literal is analysed as a synchronous closure
+				if f, ok := c.Common().Value.(*ssa.MakeClosure).Fn.(*ssa.Function); ok && f.Synthetic == "" {
+					if _, isDefer := in.(*ssa.Defer); !isDefer {
+						return
+					}
+				}
+			}
+			mc := resolveFuncValue(c.Common().Value, 0)
+			if mc == nil {
+				return
+			}
+			_, deferred := in.(*ssa.Defer)
+			f, ok := mc.Fn.(*ssa.Function)
+			if !ok {
+				return
+			}
+			if f.Synthetic != "" {
+				// bound method wrapper: mu.Unlock as a value
+				obj, _ := f.Object().(*types.Func)
+				if obj == nil || len(mc.Bindings) != 1 {
+					return
+				}
+				lm, ok := lockMethods[obj.FullName()]
+				if !ok {
+					return
+				}
+				class := a.lockClass(mc.Bindings[0])
+				if class == "" {
+					a.Unresolved = append(a.Unresolved, fmt.Sprintf("%s: mutex method value on an unrecognised lock object in %s", a.P.InstrPos(in), a.P.FuncName(fn)))
+					return
+				}
+				if lm.acquire {
+					a.Unresolved = append(a.Unresolved, fmt.Sprintf("%s: a lock is acquired through a method value in %s", a.P.InstrPos(in), a.P.FuncName(fn)))
+					return
+				}
+				a.Classes[class] = true
+				a.extra[in] = append(a.extra[in], &LockOp{Instr: c, Class: class, Acquire: false, Mode: lm.mode, Deferred: deferred})
+				return
+			}
+			// function literal: its lock operations, if they run on every path through it
+			var ops []*LockOp
+			okAll := true
+			rets := core.Returns(f)
+			core.Instrs(f, func(x ssa.Instruction) {
+				op := a.ops[x]
+				if op == nil {
+					return
+				}
+				if op.Acquire || op.Deferred {
+					okAll = false
+					return
+				}
+				for _, r := range rets {
+					if !core.Dominates(x, r) {
+						okAll = false
+					}
+				}
+				ops = append(ops, &LockOp{Instr: c, Class: op.Class, Acquire: false, Mode: op.Mode, Deferred: deferred})
+			})
+			if !okAll || len(ops) == 0 {
+				return
+			}
+			sort.SliceStable(ops, func(i, j int) bool { return false })
+			a.extra[in] = append(a.extra[in], ops...)
+		})
+	}
+}
+
+// resolveFuncValue follows a function-typed value to the one closure it can
+// be on feasible paths, or nil.
+func resolveFuncValue(v ssa.Value, depth int) *ssa.MakeClosure {
+	if depth > 4 {
+		return nil
+	}
+	switch x := v.(type) {
+	case *ssa.MakeClosure:
+		return x
+	case *ssa.ChangeType:
+		return resolveFuncValue(x.X, depth+1)
+	case *ssa.Phi:
+		var got *ssa.MakeClosure
+		for i, e := range x.Edges {
+			if !core.LiveEdge(x.Block().Preds[i], x.Block()) {
+				continue
+			}
+			m := resolveFuncValue(e, depth+1)
+			if m == nil || got != nil && got != m {
+				return nil
+			}
+			got = m
+		}
+		return got
+	case *ssa.UnOp:
+		if lv := core.BlockLocalLoad(x); lv != ssa.Value(x) {
+			return resolveFuncValue(lv, depth+1)
+		}
+	}
+	return nil
+}
+
 // lockClass abstracts a mutex pointer by the struct field it addresses.
 func (a *Analysis) lockClass(v ssa.Value) string {
 	switch x := v.(type) {
@@ -243,7 +363,25 @@ func (a *Analysis) lockClass(v ssa.Value) string {
 }
 
 // Op returns the lock operation performed by an instruction, if any.
-func (a *Analysis) Op(in ssa.Instruction) *LockOp { return a.ops[in] }
+func (a *Analysis) Op(in ssa.Instruction) *LockOp {
+	if o := a.ops[in]; o != nil {
+		return o
+	}
+	if ex := a.extra[in]; len(ex) > 0 {
+		return ex[0]
+	}
+	return nil
+}
+
+// OpsAt returns every lock operation an instruction performs (a call of an
+// unlock function value may release several locks).
+func (a *Analysis) OpsAt(in ssa.Instruction) []*LockOp {
+	var out []*LockOp
+	if o := a.ops[in]; o != nil {
+		out = append(out, o)
+	}
+	return append(out, a.extra[in]...)
+}
 
 // Ops lists all lock operations sorted by position.
 func (a *Analysis) Ops() []*LockOp {
@@ -251,7 +389,10 @@ func (a *Analysis) Ops() []*LockOp {
 	for _, o := range a.ops {
 		out = append(out, o)
 	}
-	sort.Slice(out, func(i, j int) bool { return out[i].Instr.Pos() < out[j].Instr.Pos() })
+	for _, l := range a.extra {
+		out = append(out, l...)
+	}
+	sort.SliceStable(out, func(i, j int) bool { return out[i].Instr.Pos() < out[j].Instr.Pos() })
 	return out
 }
 
@@ -402,6 +543,15 @@ func (a *Analysis) IsEntry(fn *ssa.Function) bool { return a.entryPoint[fn] }
 
 // transfer applies one instruction to a lockset (must or may alike).
 func (a *Analysis) transfer(ls LS, in ssa.Instruction) LS {
+	if ex := a.extra[in]; len(ex) > 0 && !ls.top {
+		n := ls.clone()
+		for _, op := range ex {
+			if !op.Deferred {
+				delete(n.m, op.Class)
+			}
+		}
+		return n
+	}
 	op := a.ops[in]
 	if op == nil || op.Deferred || ls.top {
 		return ls
@@ -417,58 +567,59 @@ func (a *Analysis) transfer(ls LS, in ssa.Instruction) LS {
 	return n
 }
 
-// intra recomputes block-entry locksets of fn from its entry lockset.
+// intra recomputes block-entry locksets of fn from its entry lockset. States
+// are kept per incoming edge and propagated along feasible successors only
+// (core.FeasibleSuccs: a branch decided by the way the block was entered is
+// followed on that side only), so `x, unlock, err := lockAndFind(); if err !=
+// nil { return }` expanded in place does not merge its released error arm into
+// the continuing path.
+type edgeKey struct{ from, to *ssa.BasicBlock }
+
 func (a *Analysis) intra(fn *ssa.Function, entry LS, in map[*ssa.BasicBlock]LS, isMust bool) {
 	if len(fn.Blocks) == 0 {
 		return
 	}
-	out := map[*ssa.BasicBlock]LS{}
-	done := map[*ssa.BasicBlock]bool{}
-	work := []*ssa.BasicBlock{fn.Blocks[0]}
-	in[fn.Blocks[0]] = entry
-	for _, b := range fn.Blocks[1:] {
+	for _, b := range fn.Blocks {
 		delete(in, b)
 	}
-	iter := 0
-	for len(work) > 0 && iter < 100000 {
-		iter++
-		b := work[0]
+	edgeIn := map[edgeKey]LS{}
+	start := edgeKey{nil, fn.Blocks[0]}
+	edgeIn[start] = entry
+	work := []edgeKey{start}
+	for iter := 0; len(work) > 0 && iter < 200000; iter++ {
+		e := work[0]
 		work = work[1:]
-		var cur LS
-		if b == fn.Blocks[0] {
-			cur = entry
-		} else {
-			first := true
-			for _, pr := range b.Preds {
-				o, ok := out[pr]
-				if !ok {
-					continue
-				}
-				if first {
-					cur = o.clone()
-					first = false
-				} else if isMust {
-					cur = meet(cur, o)
-				} else {
-					cur = join(cur, o)
-				}
-			}
-			if first {
-				continue
-			}
-		}
-		if old, ok := in[b]; ok && done[b] && old.equal(cur) {
-			continue
-		}
-		in[b] = cur
-		done[b] = true
-		o := cur
-		for _, instr := range b.Instrs {
+		o := edgeIn[e]
+		for _, instr := range e.to.Instrs {
 			o = a.transfer(o, instr)
 		}
-		if prev, ok := out[b]; !ok || !prev.equal(o) {
-			out[b] = o
-			work = append(work, b.Succs...)
+		for _, s := range core.FeasibleSuccs(e.to, e.from) {
+			k := edgeKey{e.to, s}
+			old, ok := edgeIn[k]
+			var nw LS
+			switch {
+			case !ok:
+				nw = o.clone()
+			case isMust:
+				nw = meet(old, o)
+			default:
+				nw = join(old, o)
+			}
+			if !ok || !old.equal(nw) {
+				edgeIn[k] = nw
+				work = append(work, k)
+			}
+		}
+	}
+	for k, ls := range edgeIn {
+		cur, ok := in[k.to]
+		switch {
+		case !ok:
+			in[k.to] = ls.clone()
+		case isMust:
+			in[k.to] = meet(cur, ls)
+		default:
+			in[k.to] = join(cur, ls)
 		}
 	}
 }
@@ -714,14 +865,7 @@ func (a *Analysis) Pairing(fn *ssa.Function) (acquired int, bad []Unpaired) {
 		}
 		return true
 	}
-	in := map[*ssa.BasicBlock]st{}
-	out := map[*ssa.BasicBlock]st{}
-	apply := func(s st, instr ssa.Instruction) st {
-		op := a.ops[instr]
-		if op == nil {
-			return s
-		}
-		n := st{held: s.held.clone(), def: cloneDef(s.def), ok: true}
+	applyOp := func(n st, op *LockOp) {
 		switch {
 		case op.Deferred && !op.Acquire:
 			n.def[op.Class] = op.Mode
@@ -730,45 +874,62 @@ func (a *Analysis) Pairing(fn *ssa.Function) (acquired int, bad []Unpaired) {
 		case !op.Acquire && !op.Deferred:
 			delete(n.held.m, op.Class)
 		}
+	}
+	apply := func(s st, instr ssa.Instruction) st {
+		op := a.ops[instr]
+		ex := a.extra[instr]
+		if op == nil && len(ex) == 0 {
+			return s
+		}
+		n := st{held: s.held.clone(), def: cloneDef(s.def), ok: true}
+		if op != nil {
+			applyOp(n, op)
+		}
+		for _, o := range ex {
+			applyOp(n, o)
+		}
 		return n
 	}
-	work := []*ssa.BasicBlock{fn.Blocks[0]}
-	in[fn.Blocks[0]] = st{held: emptyLS(), def: map[string]Mode{}, ok: true}
-	for iter := 0; len(work) > 0 && iter < 100000; iter++ {
-		b := work[0]
-		work = work[1:]
-		cur := in[b]
-		if b != fn.Blocks[0] {
-			first := true
-			for _, pr := range b.Preds {
-				o, ok := out[pr]
-				if !ok {
-					continue
-				}
-				if first {
-					cur = st{held: o.held.clone(), def: cloneDef(o.def), ok: true}
-					first = false
-				} else {
-					cur.held = join(cur.held, o.held)
-					for k, v := range cur.def {
-						if o.def[k] != v {
-							delete(cur.def, k)
-						}
-					}
-				}
+	merge := func(x, o st) st {
+		n := st{held: join(x.held, o.held), def: cloneDef(x.def), ok: true}
+		for k, v := range n.def {
+			if o.def[k] != v {
+				delete(n.def, k)
 			}
-			if first {
-				continue
-			}
-			in[b] = cur
 		}
-		o := cur
-		for _, instr := range b.Instrs {
+		return n
+	}
+	// per incoming edge, along feasible successors only (see intra)
+	edgeIn := map[edgeKey]st{}
+	start := edgeKey{nil, fn.Blocks[0]}
+	edgeIn[start] = st{held: emptyLS(), def: map[string]Mode{}, ok: true}
+	work := []edgeKey{start}
+	for iter := 0; len(work) > 0 && iter < 200000; iter++ {
+		e := work[0]
+		work = work[1:]
+		o := edgeIn[e]
+		for _, instr := range e.to.Instrs {
 			o = apply(o, instr)
 		}
-		if prev, ok := out[b]; !ok || !eq(prev, o) {
-			out[b] = o
-			work = append(work, b.Succs...)
+		for _, sc := range core.FeasibleSuccs(e.to, e.from) {
+			k := edgeKey{e.to, sc}
+			old, ok := edgeIn[k]
+			nw := o
+			if ok {
+				nw = merge(old, o)
+			}
+			if !ok || !eq(old, nw) {
+				edgeIn[k] = nw
+				work = append(work, k)
+			}
+		}
+	}
+	in := map[*ssa.BasicBlock]st{}
+	for k, v := range edgeIn {
+		if cur, ok := in[k.to]; ok {
+			in[k.to] = merge(cur, v)
+		} else {
+			in[k.to] = v
 		}
 	}
 	for _, op := range a.ops {
